@@ -64,6 +64,13 @@ ResetAll ==
   /\ delivered' = {} /\ refused' = {} /\ dgGot' = 0 /\ cancels' = 0
   /\ result' = "none" /\ quic' = "open" /\ wpc' = "loop" /\ cause' = "none"
 
+\* the silent counterpart of PeerPreamble: the bytes may have arrived before the connection was closed and
+\* are still in the stream's buffer when the task reads them, so no condition on `quic` here
+ArrivedEarlier(s) ==
+  /\ s \in SeqToSet(opened) /\ s \notin pre
+  /\ pre' = pre \cup {s}
+  /\ UNCHANGED <<opened, dgSent, workV, chanV, appV, endV>>
+
 \* the event at position l, judged
 Step ==
   /\ l <= Len(Rec) /\ l \notin taken
@@ -77,7 +84,7 @@ Step ==
             IF E.id \notin SeqToSet(opened) THEN PeerOpen(E.id) /\ Stay            \* silent: the peer opened it
             ELSE WAccept(KindName(E.kind)) /\ NextOf(KindName(E.kind)) = E.id /\ Consume
        [] E.ev = "t_end" ->
-            IF E.how \in {0, 1, 2} /\ E.id \notin pre THEN PeerPreamble(E.id) /\ Stay  \* silent: its preamble arrived
+            IF E.how \in {0, 1, 2} /\ E.id \notin pre THEN ArrivedEarlier(E.id) /\ Stay  \* silent: its preamble arrived
             ELSE TaskDoneAs(E.id, HowName(E.how)) /\ Consume
        [] E.ev = "w_h3" ->
             \* FIFO: the item taken is the oldest one; it is an Err item exactly if that task ended "bad"
